@@ -1,5 +1,5 @@
 #!/bin/bash
-# usage: confirm_seed.sh <worktree> <A|B|C|D|E|F>
+# usage: confirm_seed.sh <worktree> <A..H>
 # Confirms a seeded change independently: patch applies, tree builds, the unedited suite passes with it,
 # the demonstration fails with it and passes without it. Writes <worktree>/_seed/<X>.confirm.log
 wt=$1; x=$2
